@@ -30,3 +30,7 @@ import LyModel.Props.C07Completion
 #print axioms LyModel.Props.C07.valdiff_exact_partial_fresh
 #print axioms LyModel.Props.C07.implicit_exact_tree_explicit
 #print axioms LyModel.Props.C07.implicit_exact_tree_nochoice
+#print axioms LyModel.Props.C07.implicit_exact_tree
+#print axioms LyModel.Props.C07.implicit_exact_tree_of_B
+#print axioms LyModel.Props.C07.implicit_exact_tree_nonfresh_fails
+#print axioms LyModel.Props.C07.valdiff_exact_partial_top
